@@ -39,6 +39,21 @@ theorem C30_handler_sites_paired : ∀ s ∈ handlerSites,
     (s.2.1 = "WriteForwardDecision" ∧ s.2.2 = "RouteWrite") ∨
     (s.2.1 = "QueryForwardDecision" ∧ s.2.2 = "RouteQuery") := by decide
 
+/-- **C30_route_reads_registry_each_call.** `RouteWrite` / `RouteQuery` resolve the target from the
+registry getters on every call and the Router has no field in which a resolved target could be
+remembered across calls: its only mutable routing state is the two round-robin counters and the
+active-connection map.  This is what licenses the model's *stateless* `route` (a function of the
+registry content at request time); a memoised target (new field, new helper, a getter moved out of
+the route functions) changes these regenerated tables and breaks this `decide`. -/
+theorem C30_route_reads_registry_each_call :
+    routerFields = [("cfg", "*RouterConfig"), ("httpClient", "*http.Client"), ("logger", "zerolog.Logger"),
+      ("readerIndex", "atomic.Uint64"), ("writerIndex", "atomic.Uint64"),
+      ("activeConns", "map[string]*atomic.Int64"), ("activeConnsMu", "sync.RWMutex")] ∧
+    routeWriteGetters = ["GetPrimaryWriter", "GetWriters"] ∧
+    routeQueryGetters = ["GetReaders", "GetWriters"] ∧
+    routeWriteUses = ["cfg", "logger", "selectWriter", "forwardRequest"] ∧
+    routeQueryUses = ["cfg", "logger", "selectNode", "forwardRequest"] := by decide
+
 theorem role_mem_all (r : Role) : r ∈ Role.all := by cases r <;> decide
 
 /-- The full decision table over the regenerated roles: with a router, a role that can serve the
